@@ -81,6 +81,16 @@ type sigCase struct {
 	OwnerAlts   [][]byte // owners of KEYs holding the right key material that are (nearly but) not the signer's name: must be refused
 	// round 9
 	Light bool // sub-check sign-verify: everything up to and including the key / owner clause, without the enumerated alterations (many more messages per second)
+	// round 10: the reference signer writes the SIG record as another implementation may (RFC 2931 3: "the owner name,
+	// class, TTL, and original TTL, are meaningless"; root / ANY / 0 are SHOULDs; none of the record's own header is signed)
+	Foreign      bool
+	SigOwner     string // root | name (written out) | signer (the signer's name written out) | ptr-name (compression pointer to a name or a suffix of a name of the message) | ptr-root (pointer to the closing octet of a name of the message)
+	SigOwnerName string // presentation form, for "name"
+	SigOwnerPick int    // which pointer target (reduced modulo the number of candidates)
+	SigClass     uint16
+	SigTTL       uint32
+	SigLabels    int // -1: the number of labels of the owner (RFC 2535 4.1.3), else the value
+	SigOrigTTL   uint32
 }
 
 func privFor(c sigCase) (crypto.PrivateKey, error) {
@@ -357,7 +367,14 @@ func checkSig0(c sigCase) (err error) {
 	var out []byte
 	if c.RefSign {
 		s := ref.Sig{Algorithm: c.Alg, Expiration: expir, Inception: incep, KeyTag: tag, Signer: signerAsL}
-		if out, err = ref.Sig0Sign(packed, s, priv, nil); err != nil {
+		if c.Foreign {
+			// round 10: the record as another implementation may write it
+			var fcl []string
+			if out, fcl, err = foreignSig0(packed, s, priv, c); err != nil || len(out) > 65535 {
+				return nil
+			}
+			classes = append(classes, fcl...)
+		} else if out, err = ref.Sig0Sign(packed, s, priv, nil); err != nil {
 			return nil
 		}
 	} else {
@@ -449,7 +466,7 @@ func checkSig0(c sigCase) (err error) {
 	}
 	verr := rsig.Verify(k, out)
 	if inWindow && verr != nil {
-		return pbt.Errf("SIG.Verify of the signed message failed: %v (alg %d, key tag %d, signer %q, KEY owner written %q, %d octets, question names %q, %d additional records before the SIG, compressed=%v, reference-signed=%v)", verr, c.Alg, tag, c.SignerAs, keyOwner, len(out), questionNames(c.Msg), len(c.Msg.Extra), c.Msg.Compress, c.RefSign)
+		return pbt.Errf("SIG.Verify of the signed message failed: %v (alg %d, key tag %d, signer %q, KEY owner written %q, %d octets, question names %q, %d additional records before the SIG, compressed=%v, reference-signed=%v%s)", verr, c.Alg, tag, c.SignerAs, keyOwner, len(out), questionNames(c.Msg), len(c.Msg.Extra), c.Msg.Compress, c.RefSign, foreignDesc(c, out))
 	}
 	if !inWindow && verr == nil {
 		return pbt.Errf("SIG.Verify accepted a signature whose window [now%+d, now%+d] does not contain now", c.IncOff, c.ExpOff)
@@ -1150,6 +1167,7 @@ func genSig0(t *rapid.T) sigCase {
 		c.Muts = append(c.Muts, Mut{Op: rapid.SampledFrom([]string{"set", "set", "ins", "del", "count", "ptr"}).Draw(t, "op"),
 			Pos: rapid.IntRange(0, 1<<20).Draw(t, "mpos"), Val: rapid.SliceOfN(rapid.Byte(), 1, 4).Draw(t, "mval")})
 	}
+	genForeign(t, &c) // round 10: two thirds of the reference-signed cases write the SIG record as another implementation may
 	if rapid.IntRange(0, 11).Draw(t, "atmax") == 11 { // not 0: rapid shrinks draws towards 0, and a case of 65535 octets is the most expensive one to shrink on
 		sizeToLimit(t, &c, rapid.SampledFrom([]int{65535, 65535, 65534, 65536, 65536, 65537}).Draw(t, "target"))
 	}
